@@ -320,7 +320,19 @@ func algebraBattery(c *Ctx, A, B *BM) {
 		if g := B.B.Intersects(A.B); g != !and.IsEmpty() {
 			c.Fail("Intersects/value", "Intersects (swapped)=%v want %v", g, !and.IsEmpty())
 		}
-		c.Eval(5)
+		// the same object on both sides
+		for _, X := range []*BM{A, B} {
+			if g := X.B.AndCardinality(X.B); g != X.M.Card() {
+				c.Fail("AndCardinality/self", "x.AndCardinality(x)=%d want %d (x=%s)", g, X.M.Card(), X.M)
+			}
+			if g := X.B.OrCardinality(X.B); g != X.M.Card() {
+				c.Fail("OrCardinality/self", "x.OrCardinality(x)=%d want %d (x=%s)", g, X.M.Card(), X.M)
+			}
+			if g := X.B.Intersects(X.B); g != !X.M.IsEmpty() {
+				c.Fail("Intersects/self", "x.Intersects(x)=%v want %v", g, !X.M.IsEmpty())
+			}
+		}
+		c.Eval(11)
 	})
 	// same object on both sides
 	for _, op := range binOps {
